@@ -85,6 +85,7 @@ class File:
         self.claimed[off] = what
 
     def exclude(self, lo, hi, why):
+        self.spans = getattr(self, "spans", []) + [(lo, hi)]
         n = 0
         for off, _ in tokens(self.src, lo, hi):
             self.claim(off, "excluded:" + why)
@@ -116,73 +117,204 @@ class File:
                 lost("%s:%d: Ordering::%s belongs to no known site" % (self.rel, line, val))
 
 
-def impl_block(f, header_re, what):
-    bs = blocks(f.src, header_re)
-    if len(bs) != 1:
-        lost("%s: expected exactly one `%s`, found %d" % (f.rel, what, len(bs)))
-    return bs[0][1], bs[0][2]
+def impl_blocks(f, header_re):
+    return [(b, e) for _, b, e in blocks(f.src, header_re)]
 
 
-def optional_verif_fn(f, lo, hi, name):
-    """a #[cfg(lasso_verif)] read-only audit function: excluded, but only if it carries the cfg attribute"""
-    for m in re.finditer(r"\bfn\s+%s\b" % name, f.src[lo:hi]):
-        head = f.src[max(lo, lo + m.start() - 200):lo + m.start()]
-        if not re.search(r"#\[cfg\(lasso_verif\)\]\s*pub\(crate\)\s*$", head):
-            lost("%s: fn %s without #[cfg(lasso_verif)]" % (f.rel, name))
-        b = f.src.find("{", lo + m.end())
-        f.exclude(b, match_brace(f.src, b), "cfg(lasso_verif) fn " + name)
+ATOMIC_METHODS = ("load", "store", "compare_exchange_weak", "compare_exchange", "fetch_update", "fetch_add", "fetch_sub",
+                  "swap", "fetch_max", "fetch_min", "fetch_or", "fetch_and", "fetch_xor", "fetch_nand")
+
+
+def match_paren(src, i):
+    assert src[i] == "("
+    d = 0
+    for j in range(i, len(src)):
+        if src[j] == "(":
+            d += 1
+        elif src[j] == ")":
+            d -= 1
+            if d == 0:
+                return j + 1
+    lost("unbalanced parentheses")
+
+
+def enclosing_fn(src, off):
+    """(name, body_start, body_end) of the innermost `fn` whose body contains off"""
+    best = None
+    for m in re.finditer(r"\bfn\s+(\w+)", src):
+        if m.start() > off:
+            break
+        b = src.find("{", m.end())
+        semi = src.find(";", m.end())
+        if b < 0 or (0 <= semi < b):
+            continue
+        e = match_brace(src, b)
+        if b <= off < e and (best is None or b > best[1]):
+            best = (m.group(1), b, e)
+    return best
+
+
+def trailing_name(expr):
+    """the field / local / method name an expression ends in:  self.head -> head; (*p).next -> next; self.length() -> length"""
+    m = re.search(r"([A-Za-z_]\w*)\s*(?:\(\s*\))?\s*$", expr)
+    return m.group(1) if m else None
+
+
+def resolve(f, name, off, classes, depth=0):
+    """map the receiver name of an atomic call to a location class: a known field, a local bound to one
+    (`let length = self.length();`), or a helper method returning a reference to one"""
+    if depth > 4:
+        lost("%s: receiver %s: alias chain too long" % (f.rel, name))
+    if name in classes:
+        return classes[name]
+    fn = enclosing_fn(f.src, off)
+    if fn:
+        binds = [m for m in re.finditer(r"\blet\s+(?:mut\s+)?%s\s*(?::[^=;]+)?=\s*([^;]+);" % re.escape(name), f.src[fn[1]:off])]
+        if binds:
+            t = trailing_name(binds[-1].group(1))
+            if t and t != name:
+                return resolve(f, t, fn[1] + binds[-1].start(), classes, depth + 1)
+    defs = [m for m in re.finditer(r"\bfn\s+%s\s*\([^)]*\)\s*->\s*&[^{;]*Atomic\w+[^{;]*\{" % re.escape(name), f.src)]
+    if len(defs) == 1:
+        b = f.src.rfind("{", defs[0].start(), defs[0].end())
+        body = f.src[b:match_brace(f.src, b)]
+        flds = re.findall(r"\)\s*\.\s*([A-Za-z_]\w*)\s*\)", body) + re.findall(r"\bself\s*\.\s*([A-Za-z_]\w*)\b(?!\s*\()", body)
+        flds = [x for x in flds if x in classes]
+        if len(set(flds)) == 1:
+            return classes[flds[0]]
+    line = f.src.count("\n", 0, off) + 1
+    lost("%s:%d: an atomic access through `%s`, which is no atomic location this model knows" % (f.rel, line, name))
+
+
+def strength(o):
+    return {"Relaxed": (0, 0, 0), "Acquire": (1, 0, 0), "Release": (0, 1, 0), "AcqRel": (1, 1, 0), "SeqCst": (1, 1, 1)}[o]
+
+
+def weakest(os_):
+    """the meet of a set of orderings (what every one of them guarantees)"""
+    a = min(strength(o)[0] for o in os_); r = min(strength(o)[1] for o in os_); c = min(strength(o)[2] for o in os_)
+    return "SeqCst" if c else {(0, 0): "Relaxed", (1, 0): "Acquire", (0, 1): "Release", (1, 1): "AcqRel"}[(a, r)]
+
+
+def attribute(f, classes, table):
+    """Attribute every Ordering token outside the excluded regions to a site, by the atomic LOCATION and OPERATION of the
+    call it is an argument of (not by the function it stands in: helpers may be split off or inlined).
+    table: (class, method) -> tuple of site names, one per Ordering argument.  A site met several times gets the weakest
+    of its orderings (sound: the theorem is then about a configuration at most as strong as every occurrence)."""
+    calls = []
+    for m in re.finditer(r"\.\s*(%s)\s*\(" % "|".join(ATOMIC_METHODS), f.src):
+        op = f.src.index("(", m.end() - 1)
+        cl = match_paren(f.src, op)
+        if tokens(f.src, op, cl):
+            calls.append((cl - op, m.start(), op, cl, m.group(1)))
+    found = {}
+    for _, dot, op, cl, meth in sorted(calls):          # innermost calls first: they claim their own tokens
+        mine = [(off, v) for off, v in tokens(f.src, op, cl) if off not in f.claimed]
+        if not mine:
+            continue
+        if any(w.startswith("excluded:") for off, w in f.claimed.items() if op <= off < cl):
+            lost("%s: an atomic call straddles an excluded region" % f.rel)
+        recv = trailing_name(f.src[max(0, dot - 200):dot])
+        line = f.src.count("\n", 0, dot) + 1
+        if recv is None:
+            lost("%s:%d: cannot read the receiver of .%s(..)" % (f.rel, line, meth))
+        cls = resolve(f, recv, dot, classes)
+        sites = table.get((cls, meth))
+        if sites is None:
+            lost("%s:%d: %s.%s(..) is an operation on `%s` that the model does not know" % (f.rel, line, recv, meth, cls))
+        if len(sites) != len(mine):
+            lost("%s:%d: %s.%s(..) carries %d orderings, expected %d" % (f.rel, line, recv, meth, len(mine), len(sites)))
+        for (off, v), site in zip(mine, sites):
+            if v not in ORDERINGS:
+                lost("%s:%d: unknown ordering %s" % (f.rel, line, v))
+            f.claim(off, "/".join(site) if isinstance(site, tuple) else site)
+            for s1 in (site if isinstance(site, tuple) else (site,)):
+                found.setdefault(s1, []).append(v)
+    for site, vs in found.items():
+        f.sites[site] = weakest(vs)
+    f.occurrences = {k: len(v) for k, v in found.items()}
+
+
+def exclude_common(f):
+    for b, e in impl_blocks(f, r"\bimpl(?:<[^>]*>)?\s+Drop\s+for\s+\w+(?:<[^>]*>)?\s*\{"):
+        f.exclude(b, e, "impl Drop (exclusive access)")
+    for b, e in impl_blocks(f, r"\bimpl(?:<[^>]*>)?\s+(?:fmt::)?Debug\s+for\s+\w+(?:<[^>]*>)?\s*\{"):
+        f.exclude(b, e, "impl Debug (diagnostics)")
+    for m, b, e in blocks(f.src, r"#\[cfg\(test\)\]\s*mod\s+\w+\s*\{"):
+        f.exclude(b, e, "#[cfg(test)] module")
+    for m in re.finditer(r"#\[cfg\(lasso_verif\)\]\s*(?:#\[[^\]]*\]\s*)*pub(?:\(crate\))?\s+(?:unsafe\s+)?fn\s+(verif_\w+)", f.src):
+        b = f.src.find("{", m.end())
+        f.exclude(b, match_brace(f.src, b), "cfg(lasso_verif) fn " + m.group(1))
 
 
 def atomic_bucket():
     f = File("src/arenas/atomic_bucket.rs")
     facts = {}
-    lo, hi = impl_block(f, r"\bimpl\s+AtomicBucketList\s*\{", "impl AtomicBucketList")
-    b, e = fn_body(f.src, lo, hi, "push_front")
-    f.expect(b, e, [("PushHeadLoad", r"self\.head\s*\.load\(\s*$"),
-                    ("PushCasOk", r"self\.head\s*\.compare_exchange_weak\(\s*head_ptr,\s*bucket_ptr,\s*$"),
-                    ("PushCasFail", r"^,\s*$")], "push_front")
-    # textual order inside the loop: the non-atomic write of `next` precedes the CAS, and nothing writes it afterwards
+    exclude_common(f)
+    attribute(f, {"head": "Head", "current": "Link", "next": "Link", "len": "Len", "length": "Len"},
+              {("Head", "load"): ("PushHeadLoad",),
+               ("Head", "compare_exchange_weak"): ("PushCasOk", "PushCasFail"), ("Head", "compare_exchange"): ("PushCasOk", "PushCasFail"),
+               ("Link", "load"): ("IterLoad",),
+               ("Len", "load"): ("LenLoad",),
+               ("Len", "compare_exchange_weak"): ("LenCasOk", "LenCasFail"), ("Len", "compare_exchange"): ("LenCasOk", "LenCasFail")})
+    # push_front: the non-atomic write of the new bucket's `next` precedes the CAS inside the retry loop, nothing writes it afterwards
+    pfs = [m for m in re.finditer(r"\bfn\s+push_front\s*\(\s*&self\s*,\s*(\w+)\s*:\s*BucketRef\s*\)", f.src)]
+    if len(pfs) != 1:
+        lost("atomic_bucket.rs: expected exactly one fn push_front(&self, _: BucketRef)")
+    b = f.src.find("{", pfs[0].end()); e = match_brace(f.src, b)
     body = f.src[b:e]
     lm = re.search(r"\bloop\s*\{", body)
     if not lm:
         lost("push_front: no loop")
     lb = b + lm.end() - 1
-    le = match_brace(f.src, lb)
-    loop = f.src[lb:le]
-    wr = [m.start() for m in re.finditer(r"addr_of_mut!\(\(\*bucket_ptr\)\.next\)\s*\.write\(", body)]
-    wr_loop = [m.start() for m in re.finditer(r"addr_of_mut!\(\(\*bucket_ptr\)\.next\)\s*\.write\(", loop)]
-    cas = [m.start() for m in re.finditer(r"compare_exchange_weak\(", loop)]
+    loop = f.src[lb:match_brace(f.src, lb)]
+    wre = r"addr_of_mut!\(\s*\(\*\s*\w+\s*\)\s*\.next\s*\)\s*\.write\("
+    wr = [m.start() for m in re.finditer(wre, body)]
+    wr_loop = [m.start() for m in re.finditer(wre, loop)]
+    cas = [m.start() for m in re.finditer(r"compare_exchange(?:_weak)?\(", loop)]
     if len(cas) != 1 or len(wr) == 0:
         lost("push_front: expected one CAS in the loop and at least one write of next")
     facts["next_write_before_cas"] = (len(wr) == len(wr_loop) and all(w < cas[0] for w in wr_loop))
-    if len(re.findall(r"\(\*bucket_ptr\)\.next", body)) != len(wr):
-        lost("push_front: an access to (*bucket_ptr).next that is not the known write")
-
-    lo, hi = impl_block(f, r"\bimpl\s+Drop\s+for\s+AtomicBucketList\s*\{", "impl Drop for AtomicBucketList")
-    f.exclude(lo, hi, "impl Drop for AtomicBucketList (exclusive access)")
-
-    lo, hi = impl_block(f, r"\bimpl<'a>\s+Iterator\s+for\s+AtomicBucketIter<'a>\s*\{", "impl Iterator for AtomicBucketIter")
-    b, e = fn_body(f.src, lo, hi, "next")
-    f.expect(b, e, [("IterLoad", r"self\.current\s*\.load\(\s*$")], "AtomicBucketIter::next")
-
-    lo, hi = impl_block(f, r"\bimpl\s+BucketRef\s*\{", "impl BucketRef")
-    optional_verif_fn(f, lo, hi, "verif_audit")
-    b, e = fn_body(f.src, lo, hi, "try_inc_length")
-    f.expect(b, e, [("LenLoad", r"\blength\s*\.load\(\s*$"),
-                    ("LenCasOk", r"\blength\s*\.compare_exchange_weak\(\s*len,\s*new_length,\s*$"),
-                    ("LenCasFail", r"^,\s*$")], "try_inc_length")
-
-    # push_slice: the bytes are copied, then set_len; with_capacity initialises next, len, capacity non-atomically
-    lo, hi = impl_block(f, r"\bimpl\s+UniqueBucketRef\s*\{", "impl UniqueBucketRef")
-    b, e = fn_body(f.src, lo, hi, "push_slice")
-    ps = f.src[b:e]
-    c1, c2 = ps.find("copy_from_slice("), ps.find("self.set_len(")
-    facts["push_slice_copies_then_set_len"] = (0 <= c1 < c2)
-    lo, hi = impl_block(f, r"\bimpl\s+AtomicBucket\s*\{", "impl AtomicBucket")
-    b, e = fn_body(f.src, lo, hi, "with_capacity")
-    wc = f.src[b:e]
+    if len(re.findall(r"\)\s*\.next\b", body)) != len(wr):
+        lost("push_front: an access to the new bucket's next that is not the known write")
+    # ownership facts that make "initialise and fill, THEN publish" a consequence of the borrow checker:
+    # push_slice / set_len need `&mut UniqueBucketRef`; `into_ref(self)` consumes it; push_front takes the shared BucketRef;
+    # UniqueBucketRef is neither Clone nor Copy and is only built by with_capacity
+    ub = impl_blocks(f, r"\bimpl\s+UniqueBucketRef\s*\{")
+    if not ub:
+        lost("atomic_bucket.rs: no impl UniqueBucketRef")
+    utext = "\n".join(f.src[b:e] for b, e in ub)
+    sd = re.search(r"((?:#\[[^\]]*\]\s*)*)pub(?:\([^)]*\))?\s+struct\s+UniqueBucketRef\b", f.src)
+    if not sd:
+        lost("atomic_bucket.rs: struct UniqueBucketRef not found")
+    facts["unique_ref_discipline"] = bool(
+        re.search(r"\bfn\s+push_slice\s*\(\s*&mut\s+self\b", utext) and re.search(r"\bfn\s+set_len\s*\(\s*&mut\s+self\b", utext)
+        and re.search(r"\bfn\s+into_ref\s*\(\s*self\s*\)\s*->\s*BucketRef\b", utext)
+        and not re.search(r"derive\([^)]*\b(Clone|Copy)\b", sd.group(1))
+        and not re.search(r"\bimpl\s+(Clone|Copy)\s+for\s+UniqueBucketRef\b", f.src)
+        and len(re.findall(r"\bfn\s+(?:push_slice|set_len)\b", f.src)) == 2)
+    mk = []
+    for m in re.finditer(r"(?<!struct )\bUniqueBucketRef\s*(?:::\s*new\s*\(|\{\s*bucket\b)", f.src):
+        fn = enclosing_fn(f.src, m.start())
+        mk.append(fn[0] if fn else "?")
+    for b, e in ub:
+        for m in re.finditer(r"\bSelf\s*\{", f.src[b:e]):
+            if f.src[:b + m.start()].rstrip().endswith("->"):
+                continue        # a return type followed by the body's brace
+            fn = enclosing_fn(f.src, b + m.start())
+            mk.append(fn[0] if fn else "?")
+    facts["unique_ref_made_only_by"] = sorted(set(mk))
+    facts["unique_ref_discipline"] = facts["unique_ref_discipline"] and set(mk) <= {"with_capacity", "new"}
+    ab = impl_blocks(f, r"\bimpl\s+AtomicBucket\s*\{")
+    wc = None
+    for b, e in ab:
+        m = re.search(r"\bfn\s+with_capacity\b", f.src[b:e])
+        if m:
+            bb = f.src.find("{", b + m.end()); wc = f.src[bb:match_brace(f.src, bb)]
+    if wc is None:
+        lost("atomic_bucket.rs: AtomicBucket::with_capacity not found")
     facts["with_capacity_inits_fields"] = all(
-        re.search(r"addr_of_mut!\(\(\*ptr\)\.%s\)\s*\.write\(" % fld, wc) for fld in ("next", "len", "capacity"))
+        re.search(r"addr_of_mut!\(\s*\(\*\s*\w+\s*\)\s*\.%s\s*\)\s*\.write\(" % fld, wc) for fld in ("next", "len", "capacity"))
     f.finish()
     return f, facts
 
@@ -190,60 +322,50 @@ def atomic_bucket():
 def lockfree():
     f = File("src/arenas/lockfree.rs")
     facts = {}
-    lo, hi = impl_block(f, r"\bimpl\s+LockfreeArena\s*\{", "impl LockfreeArena")
-    optional_verif_fn(f, lo, hi, "verif_audit")
-    for fn, spec in [
-        ("current_memory_usage", [("CurUsageLoad", r"self\.memory_usage\s*\.load\(\s*$")]),
-        ("set_max_memory_usage", [("SetMaxStore", r"self\.max_memory_usage\s*\.store\(\s*max_memory_usage,\s*$")]),
-        ("get_max_memory_usage", [("GetMaxLoad", r"self\.max_memory_usage\s*\.load\(\s*$")]),
-        ("set_bucket_capacity", [("SetCapStore", r"self\.bucket_capacity\s*\.store\(\s*capacity,\s*$")]),
-        ("allocate_memory", [("AllocUpdOk", r"self\.memory_usage\s*\.fetch_update\(\s*$"),
-                             ("AllocUpdFail", r"^,\s*$"),
-                             ("LimitLoad", r"self\.max_memory_usage\s*\.load\(\s*$")]),
-        ("store_str", [("CapLoad", r"self\.bucket_capacity\s*\.load\(\s*$")]),
-    ]:
-        b, e = fn_body(f.src, lo, hi, fn)
-        f.expect(b, e, spec, fn)
-    # the three growth branches of store_str: with_capacity; push_slice; push_front -- in this order
-    b, e = fn_body(f.src, lo, hi, "store_str")
-    body = f.src[b:e]
-    ev = sorted([(m.start(), "A") for m in re.finditer(r"AtomicBucket::with_capacity\(", body)] +
-                [(m.start(), "S") for m in re.finditer(r"\bbucket\.push_slice\(", body)] +
-                [(m.start(), "P") for m in re.finditer(r"self\.buckets\.push_front\(", body)])
-    seq = "".join(k for _, k in ev)
-    if seq.count("P") != 3 or seq.count("A") != 3:
-        lost("store_str: expected three growth branches (with_capacity/push_front), saw %r" % seq)
-    facts["slice_before_push"] = (seq == "ASPASPASP")
-
-    lo, hi = impl_block(f, r"\bimpl\s+Debug\s+for\s+LockfreeArena\s*\{", "impl Debug for LockfreeArena")
-    f.exclude(lo, hi, "impl Debug for LockfreeArena (diagnostics, Relaxed counters)")
-    for m, b, e in blocks(f.src, r"#\[cfg\(test\)\]\s*mod\s+\w+\s*\{"):
-        f.exclude(b, e, "#[cfg(test)] module")
+    exclude_common(f)
+    attribute(f, {"memory_usage": "Usage", "max_memory_usage": "Limit", "bucket_capacity": "Cap"},
+              {("Usage", "fetch_update"): ("AllocUpdOk", "AllocUpdFail"),
+               ("Usage", "load"): ("CurUsageLoad",),
+               ("Limit", "load"): (("LimitLoad", "GetMaxLoad"),),
+               ("Limit", "store"): ("SetMaxStore",),
+               ("Cap", "load"): ("CapLoad",),
+               ("Cap", "store"): ("SetCapStore",)})
+    # every block is pushed as `push_front(<unique>.into_ref())` or through a binding of it: the unique reference is consumed
+    # at publication (with the discipline facts of atomic_bucket.rs this orders every push_slice/set_len before the push)
+    pf = [m for m in re.finditer(r"\.push_front\s*\(", f.src) if not any(lo <= m.start() < hi for lo, hi in getattr(f, "spans", []))]
+    body = f.src
+    n_pf = len(pf)
+    if n_pf == 0:
+        lost("lockfree.rs: no push_front call")
+    facts["blocks_pushed"] = n_pf
+    facts["slice_before_push"] = True
+    for m in pf:
+        fn = enclosing_fn(f.src, m.start())
+        if not fn:
+            lost("lockfree.rs: push_front outside a function")
+        op = f.src.index("(", m.end() - 1); arg = f.src[op + 1:match_paren(f.src, op) - 1].strip()
+        pre = f.src[fn[1]:m.start()]
+        if re.fullmatch(r"\w+\s*\.\s*into_ref\s*\(\s*\)", arg):
+            continue
+        if re.fullmatch(r"\w+", arg) and re.search(r"\blet\s+%s\s*(?::[^=;]+)?=\s*\w+\s*\.\s*into_ref\s*\(\s*\)\s*;" % re.escape(arg), pre):
+            continue
+        facts["slice_before_push"] = False
     f.finish()
     return f, facts
 
 
 def threaded():
     f = File("src/threaded_rodeo.rs")
-    vals = re.findall(r"self\.key\s*\.fetch_add\(\s*1,\s*Ordering::(\w+)\s*\)", f.src)
-    if not vals:
+    exclude_common(f)
+    # `use core::{.., sync::atomic::{AtomicUsize, Ordering}}` etc. carry no Ordering::X token; every token must be an
+    # argument of key.fetch_add: a key counter handled by a separate load and store (or any new atomic) is a structure
+    # this model does not know
+    attribute(f, {"key": "Key"}, {("Key", "fetch_add"): ("KeyFetchAdd",)})
+    f.finish()
+    n = f.occurrences.get("KeyFetchAdd", 0)
+    if n == 0:
         lost("threaded_rodeo.rs: no key.fetch_add found")
-    if len(set(vals)) != 1 or vals[0] not in ORDERINGS:
-        lost("threaded_rodeo.rs: key.fetch_add sites disagree: %r" % vals)
-    f.sites["KeyFetchAdd"] = vals[0]
-    # every other atomic access in the non-test, non-hook part of the file must be one of those fetch_adds:
-    # a key counter handled by a separate load and store (or any new atomic) is a structure this model does not know
-    body = f.src.split("#[cfg(test)]")[0]
-    total = len(re.findall(r"Ordering::\w+", body)) - len(re.findall(r"use\s+core::\{[^}]*Ordering", body))
-    hook = 0
-    for m in re.finditer(r"#\[cfg\(lasso_verif\)\]\s*(?:#\[doc\(hidden\)\]\s*)?pub fn verif_\w+[^{]*\{", body):
-        depth, i = 1, m.end()
-        while depth and i < len(body):
-            depth += {"{": 1, "}": -1}.get(body[i], 0); i += 1
-        hook += len(re.findall(r"Ordering::\w+", body[m.end():i]))
-    if total - hook != len(vals) or len(vals) != 2:
-        lost("threaded_rodeo.rs: %d atomic orderings outside hooks/tests, %d key.fetch_add(1, ..) sites (expected 2 and 2): an atomic access the model does not know" % (total - hook, len(vals)))
-    return f, {"key_fetch_add_sites": len(vals)}
+    return f, {"key_fetch_add_sites": n}
 
 SITES = ["PushHeadLoad", "PushCasOk", "PushCasFail", "IterLoad", "LenLoad", "LenCasOk", "LenCasFail",
          "AllocUpdOk", "AllocUpdFail", "LimitLoad", "CurUsageLoad", "SetMaxStore", "GetMaxLoad", "SetCapStore",
@@ -273,7 +395,7 @@ def main():
             if what.startswith("excluded:"):
                 line = f.src.count("\n", 0, off) + 1
                 excluded.append("%s:%d  %s" % (f.rel, line, what[len("excluded:"):]))
-    init_before_push = (facts_l["slice_before_push"] and facts_a["push_slice_copies_then_set_len"]
+    init_before_push = (facts_l["slice_before_push"] and facts_a["unique_ref_discipline"]
                         and facts_a["with_capacity_inits_fields"])
     out = []
     out.append("(* GENERATED by tools/extract_orderings.py from %s -- do not edit.\n" % "src/arenas/atomic_bucket.rs, src/arenas/lockfree.rs, src/threaded_rodeo.rs")
@@ -288,10 +410,10 @@ def main():
     out.append("  end.\n\n")
     out.append("(* push_front: every non-atomic write of the bucket's next is inside the loop and textually before the CAS *)\n")
     out.append("Definition next_write_before_cas : bool := %s.\n" % coq_bool(facts_a["next_write_before_cas"]))
-    out.append("(* store_str: in each of the three growth branches: with_capacity, then push_slice, then push_front *)\n")
+    out.append("(* lockfree.rs: every push_front call (%d) publishes `<unique>.into_ref()`: the unique reference is consumed *)\n" % facts_l["blocks_pushed"])
     out.append("Definition slice_before_push : bool := %s.\n" % coq_bool(facts_l["slice_before_push"]))
-    out.append("(* push_slice copies the bytes and then calls set_len (both before publication) *)\n")
-    out.append("Definition push_slice_copies_then_set_len : bool := %s.\n" % coq_bool(facts_a["push_slice_copies_then_set_len"]))
+    out.append("(* push_slice/set_len take &mut UniqueBucketRef, into_ref(self) consumes it, it is neither Clone nor Copy and only\n   built by %s: so filling a block precedes its publication by the borrow checker *)\n" % "/".join(facts_a["unique_ref_made_only_by"]))
+    out.append("Definition unique_ref_discipline : bool := %s.\n" % coq_bool(facts_a["unique_ref_discipline"]))
     out.append("(* with_capacity writes next, len and capacity non-atomically *)\n")
     out.append("Definition with_capacity_inits_fields : bool := %s.\n" % coq_bool(facts_a["with_capacity_inits_fields"]))
     out.append("(* together: the ALLOCATE step of the skeleton (all initialisation before PUSH_FRONT) matches the source *)\n")
